@@ -60,6 +60,9 @@ func (i c08Ins) build() parser.Instruction {
 		effs = []expr.Effect{expr.NewRegStore(expr.NewLess(r1, r2, c8(i.T1), c8(i.T2), 8), expr.IPKey, 8)}
 	case "two":
 		effs = []expr.Effect{expr.NewRegStore(r1, "x1", 8), expr.NewRegStore(expr.NewBinary(expr.Add, c8(i.T1-1), expr.One, 8), expr.IPKey, 8)}
+	case "condadd": // pc-relative form: IP := addr + (r1 < r2 ? T1-addr : len): the conditional sits below an addition
+		effs = []expr.Effect{expr.NewRegStore(expr.NewBinary(expr.Add, c8(i.Addr),
+			expr.NewLess(r1, r2, c8(i.T1-i.Addr), c8(uint64(i.Len)), 8), 8), expr.IPKey, 8)}
 	}
 	return parser.Instruction{Addr: model.Addr(i.Addr), Bytes: make([]byte, i.Len), Effects: effs,
 		Details: c08Details{fmt.Sprintf("%s@%x", i.Kind, i.Addr)}}
@@ -77,7 +80,7 @@ func (i c08Ins) targets() (consts []uint64, real bool) {
 	switch i.Kind {
 	case "jmp", "two":
 		add(i.T1)
-	case "cond":
+	case "cond", "condadd":
 		add(i.T1)
 	case "cond2":
 		add(i.T1)
@@ -203,7 +206,7 @@ func c08Run(c c08Case) *eng.Fail {
 
 func init() {
 	checks["C08"] = eng.Check{
-		Rule:        "deps.NewCode on synthetic instruction sequences: <=3 (thorough 4) instructions of length 2 or 4 in 3 length patterns x every gap pattern, each instruction of one of 7 kinds (plain; IP:=const T; IP:=Less(r1,r2,T,next); IP:=next; IP:=register+4; IP:=Less(..,T1,T2); two effects with a foldable target) with T over {every instruction start, a mid-instruction address, a gap/end address, far outside}, entry over the same address alphabet, sorted and reversed input order, plus the empty sequence; and on real RISC-V sequences of <=4 words over {addi, beq +8/-4/+4, jal x0 +8/+4/-8, jalr, bne +12} (targets from the reference decoder). Oracle: failure iff entry or a constant real target is not an instruction start; otherwise blocks = maximal runs between leaders (first, after gap, after an instruction with a real target, each constant target, entry). Non-trivial = code that builds.",
+		Rule:        "deps.NewCode on synthetic instruction sequences: <=3 (thorough 4) instructions of length 2 or 4 in 3 length patterns x every gap pattern, each instruction of one of 8 kinds (plain; IP:=addr+Less(r1,r2,T-addr,len) i.e. a conditional below an addition; IP:=const T; IP:=Less(r1,r2,T,next); IP:=next; IP:=register+4; IP:=Less(..,T1,T2); two effects with a foldable target) with T over {every instruction start, a mid-instruction address, a gap/end address, far outside}, entry over the same address alphabet, sorted and reversed input order, plus the empty sequence; and on real RISC-V sequences of <=4 words over {addi, beq +8/-4/+4, jal x0 +8/+4/-8, jalr, bne +12} (targets from the reference decoder). Oracle: failure iff entry or a constant real target is not an instruction start; otherwise blocks = maximal runs between leaders (first, after gap, after an instruction with a real target, each constant target, entry). Non-trivial = code that builds.",
 		Assumptions: []string{"a constant target equal to the instruction's own end is not a jump (as the property's 'real jump target' says)"},
 		Run: func(r *eng.Run) {
 			do := func(c c08Case) {
@@ -268,6 +271,9 @@ func init() {
 					for _, t := range ts {
 						mk("jmp", t, 0)
 						mk("cond", t, 0)
+					}
+					for _, t := range ts[:4] {
+						mk("condadd", t, 0)
 					}
 					for _, t := range ts[:3] {
 						if t != 0 {
